@@ -167,6 +167,18 @@ func (bs *blockState) applyContractX(spec *FuncSpec, key string, args []Val, ins
 	short := key[strings.Index(key, ".")+1:]
 	e.callOrd[short]++
 	site := fmt.Sprintf("call.%s#%d", short, e.callOrd[short])
+	if e.spec != nil {
+		if alt, ok := e.spec.CallSites[fmt.Sprintf("%s#%d", short, e.callOrd[short])]; ok {
+			as := e.W.Specs.Funcs[alt]
+			if as == nil {
+				panic(contractMismatch{"callsite override: no contract " + alt})
+			}
+			spec = as
+			if spec.Trusted {
+				e.usedTrusted[spec.Header] = true
+			}
+		}
+	}
 	vars := map[string]Val{}
 	if len(args) != len(spec.Params) {
 		panic(contractMismatch{fmt.Sprintf("contract of %s has %d params, call has %d args", key, len(spec.Params), len(args))})
@@ -194,7 +206,7 @@ func (bs *blockState) applyContractX(spec *FuncSpec, key string, args []Val, ins
 		bs.assertG(site+".pre."+clauseName(r, i), "pre", pre.boolT(r.Expr), r.Src, ins)
 	}
 	preSt := pre.St
-	e.items = append(e.items, Item{Kind: IAssert, Guard: bs.g, Term: "false", Name: fmt.Sprintf("%s#canary.before.%s", e.key, site), Canary: true, Class: "canary-before"})
+	e.items = append(e.items, Item{Kind: IAssert, Guard: bs.g, Term: "false", Name: fmt.Sprintf("%s#canary.before.%s", e.key, site), Canary: true, Class: "canary-before", Pos: bs.posOf(ins), Blk: bs.b})
 	bs.ghostAt("call "+short+fmt.Sprintf("#%d", e.callOrd[short])+" before", ins, preVars)
 	// havoc what the callee may modify
 	bs.havocModifies(spec, vars, ins)
@@ -208,6 +220,7 @@ func (bs *blockState) applyContractX(spec *FuncSpec, key string, args []Val, ins
 	if resT != nil {
 		res = e.freshVal("ret."+short, resT)
 		bs.e.assume(bs.g, e.typeFacts(res))
+		bs.e.assume(bs.g, e.inputBound(res))
 		if tup, ok := resT.(*types.Tuple); ok {
 			lo := 0
 			for i := 0; i < tup.Len(); i++ {
@@ -240,7 +253,7 @@ func (bs *blockState) applyContractX(spec *FuncSpec, key string, args []Val, ins
 		bs.assumeG(post.boolT(en.Expr))
 	}
 	// reachability canary: the callee's postcondition must not contradict what is known here
-	e.items = append(e.items, Item{Kind: IAssert, Guard: bs.g, Term: "false", Name: fmt.Sprintf("%s#canary.after.%s", e.key, site), Canary: true, Class: "canary"})
+	e.items = append(e.items, Item{Kind: IAssert, Guard: bs.g, Term: "false", Name: fmt.Sprintf("%s#canary.after.%s", e.key, site), Canary: true, Class: "canary", Pos: bs.posOf(ins), Blk: bs.b})
 	bs.ghostAt("call "+short+fmt.Sprintf("#%d", e.callOrd[short])+" after", ins, post.Vars)
 	return res
 }
@@ -440,7 +453,7 @@ func (bs *blockState) makeSlice(x *ssa.MakeSlice) {
 	e := bs.e
 	ln := bs.val(x.Len).C[0]
 	cp := bs.val(x.Cap).C[0]
-	bs.assertG(fmt.Sprintf("makeslice.%d", e.ordinal("makeslice")), "bounds", and(app("<=", "0", ln), app("<=", ln, cp), app("<=", cp, "maxlen")), "make: len out of range", x)
+	bs.assertG(fmt.Sprintf("makeslice.%d", e.ordinal("makeslice")), "bounds", and(app("<=", "0", ln), app("<=", ln, cp), app("<=", cp, "maxcap")), "make: len out of range", x)
 	r := e.allocRef(bs.st, bs.g, x.Name())
 	elemT := x.Type().Underlying().(*types.Slice).Elem()
 	// zeroed contents
@@ -532,7 +545,7 @@ func (bs *blockState) appendBuiltin(x *ssa.Call) {
 	newLen := e.fresh(x.Name()+".len", SInt)
 	e.def(eq(newLen, add(s.C[2], n)))
 	bs.overflow(x, tInt, newLen)
-	bs.assertG(fmt.Sprintf("append.%d", e.ordinal("append")), "bounds", app("<=", newLen, "maxlen"), "append: length out of range", x)
+	bs.assertG(fmt.Sprintf("append.%d", e.ordinal("append")), "bounds", app("<=", newLen, "maxcap"), "append: length out of range", x)
 	fits := e.fresh(x.Name()+".fits", SBool)
 	e.def(eq(fits, app("<=", newLen, s.C[3])))
 	fresh := e.allocRef(bs.st, bs.g, x.Name())
@@ -542,7 +555,7 @@ func (bs *blockState) appendBuiltin(x *ssa.Call) {
 	e.def(eq(ref, ite(fits, s.C[0], fresh)))
 	e.def(eq(off, ite(fits, s.C[1], "0")))
 	e.def(imp(fits, eq(cp, s.C[3])))
-	e.def(imp(not(fits), and(app("<=", newLen, cp), app("<=", cp, "maxlen"))))
+	e.def(imp(not(fits), and(app("<=", newLen, cp), app("<=", cp, "maxcap"))))
 	// nil slice with nothing appended stays nil
 	for j, so := range flatten(t.Elem()) {
 		k := elemKey(t.Elem(), j)
